@@ -830,9 +830,13 @@ static bool compile_builtin_call(CG *cg, ASTNode *node) {
         return true;
     }
     if (strcmp(name, "array_slice") == 0 && argc == 3) {
+        /* array_slice(arr, start, length) (docs/STDLIB.md, the native runtime and the evaluator);
+         * OP_ARR_SLICE takes start and end, so the end is start + length */
         compile_expr(cg, args[0]); /* array */
         compile_expr(cg, args[1]); /* start */
-        compile_expr(cg, args[2]); /* end */
+        emit_op(cg, OP_DUP);
+        compile_expr(cg, args[2]); /* length */
+        emit_op(cg, OP_ADD);
         emit_op(cg, OP_ARR_SLICE);
         return true;
     }
